@@ -82,8 +82,11 @@ def test(inp):
                     if idx != want or ds.ems.ravel_index(ds.ems.wind_index(n)) != n:
                         return f'feature {k}: native index {idx} does not identify cell {n} ({want})'
             elif fmt == 'shapefile':
-                path = os.path.join(tmp, 's.shp')
+                path = os.path.join(tmp, 'grid_v1.2.shp')          # a dot in the stem: the named files are the ones written
                 must(lambda: geometry.write_shapefile(ds, path), 'write_shapefile')
+                missing = [e for e in ('.shp', '.shx', '.dbf', '.prj') if not os.path.exists(path[:-4] + e)]
+                if missing:
+                    return f'write_shapefile(grid_v1.2.shp) did not write {missing} under that name (found {sorted(os.listdir(tmp))})'
                 r = shapefile.Reader(path)
                 if len(r) != len(present):
                     return f'{len(r)} shapes for {len(present)} cells with polygons'
